@@ -350,7 +350,8 @@ def _check_ws(ctx, repo):
     fut = next((p for p in params if "future" in p and "loop" not in p), None)
     if fut is None:
         raise AnalysisError("execute_server_command has no result-future parameter")
-    sem = CompletionSem(fut)
+    from ..common import value_ctors
+    sem = CompletionSem(fut, value_ctors(repo))
     exits = sem.run(ex.node, frozenset([0]))
     rets = [x for x in exits if x.kind == "return"]
     ok = bool(rets) and all(x.state == frozenset([1]) for x in rets)
